@@ -171,7 +171,7 @@ fn judge(mode: BigMode, sel: Sel, values: &[i64], o: &SelObs) -> Option<(&'stati
         SelObs::Err(k) => {
             let fine = (matches!(sel, Sel::Tour(t) if t > n) && *k == ErrKind::TournamentSize) || (matches!(sel, Sel::LexShort(_)) && *k == ErrKind::MissingCase);
             if fine {
-                None
+                error_details_wrong(*k, n, matches!(sel, Sel::LexShort(_)).then_some(3), matches!(sel, Sel::LexShort(_)).then_some(2)).map(|w| ("error-details", w))
             } else {
                 Some(("undocumented-error", format!("reported {k:?} on a population of {n}")))
             }
